@@ -34,7 +34,8 @@ type sinkT struct {
 	failFn func(w int, attempt int) bool // fault injection: should this Write attempt fail?
 	failP  func(w int, p []byte) bool    // fault injection deciding on the payload as well
 	nWrite int
-	nFail   int  // failures injected so far (rotates the error value)
+	nFail   int  // records with injected failures so far (rotates the error value)
+	nFailRec int // failures injected since the last take/reset (= within one record)
 	partial bool // failing writes report that half of the payload was written
 }
 
@@ -44,7 +45,17 @@ func (s *sinkT) reset() {
 	s.mu.Lock()
 	s.evs = s.evs[:0]
 	s.nWrite = 0
+	s.endRecord()
 	s.mu.Unlock()
+}
+
+// endRecord: the error value rotates from record to record; within one record two consecutive
+// failing attempts return (distinct instances of) the same kind of error, the next two the next kind
+func (s *sinkT) endRecord() {
+	if s.nFailRec > 0 {
+		s.nFail++
+	}
+	s.nFailRec = 0
 }
 
 func (s *sinkT) take() []wev {
@@ -52,6 +63,7 @@ func (s *sinkT) take() []wev {
 	out := append([]wev(nil), s.evs...)
 	s.evs = s.evs[:0]
 	s.nWrite = 0
+	s.endRecord()
 	s.mu.Unlock()
 	return out
 }
@@ -60,8 +72,14 @@ var errInjected = errors.New("injected write failure")
 
 // the error values a failing destination returns, in rotation: a plain error, the error a closed
 // file gives (identity os.ErrClosed inside a *fs.PathError), io.ErrShortWrite, a cancelled context
+// injectedList is an error of slice kind used by value (like go/scanner.ErrorList): not comparable
+type injectedList []string
+
+func (e injectedList) Error() string { return "injected: " + fmt.Sprint([]string(e)) }
+
 var injectedErrors = []error{
 	errInjected,
+	injectedList{"disk full", "retry later"},
 	&fs.PathError{Op: "write", Path: "/var/log/app.log", Err: os.ErrClosed},
 	io.ErrShortWrite,
 	context.Canceled,
@@ -75,8 +93,11 @@ func (s *sinkT) write(w int, p []byte) (int, error) {
 	fail := (s.failFn != nil && s.failFn(w, s.nWrite)) || (s.failP != nil && s.failP(w, p))
 	s.evs = append(s.evs, wev{W: w, K: "w", Fail: fail, payload: append([]byte(nil), p...)})
 	if fail {
-		err := injectedErrors[s.nFail%len(injectedErrors)]
-		s.nFail++
+		err := injectedErrors[(s.nFail+s.nFailRec/2)%len(injectedErrors)]
+		if l, ok := err.(injectedList); ok {
+			err = append(injectedList(nil), l...) // a fresh value of the same kind
+		}
+		s.nFailRec++
 		if s.partial && len(p) > 3 {
 			return len(p) / 2, err // the destination took part of the record before it failed
 		}
